@@ -84,13 +84,26 @@ let () =
        | Ok blobs ->
          let root = fst (trie_hash keccak node) in
          let v blobs = str_v (verify_proof keccak root k blobs) in
+         (* for byte alterations also the "lying database": altered blob under the original hash *)
+         let lying m =
+           if m.[0] <> 'x' then [] else begin
+             let i = int_of_string (List.hd (String.split_on_char ':' (String.sub m 1 (String.length m - 1)))) in
+             let orig = List.nth blobs i and alt = List.nth (tamper blobs m) i in
+             let db = (keccak orig, alt) :: db_of keccak blobs in
+             let kx = keybytes_to_hex k in
+             let fuel = nat_of_int (List.length blobs + int_of_nat (length kx) + 2) in
+             ["L" ^ str_v (verify_loop fuel db root kx)] end in
          print_endline (String.concat " "
                           (("p:" ^ String.concat "," (List.map hx blobs)) :: v blobs ::
-                           List.map (fun m -> v (tamper blobs m)) muts))
+                           List.concat_map (fun m -> v (tamper blobs m) :: lying m) muts))
        | Missing -> print_endline "missing"
        | Crash -> print_endline "PANIC"
        | OutOfFuel -> print_endline "FUEL");
       loop ()
+    | Some ("X" :: k :: blobs) ->
+      let blobs = List.map nlist_of_hex blobs in
+      let root = keccak (List.hd blobs) in
+      print_endline (str_v (verify_proof keccak root (nlist_of_hex k) blobs)); loop ()
     | Some ("B" :: kvs) ->
       print_endline ("b:" ^ hexf (build_root keccak (List.map parse_kv kvs))); loop ()
     | Some ("S" :: kvs) ->
